@@ -51,7 +51,7 @@ def TableR.empty : TableR := ⟨[], [], []⟩
 
 /-- `add_argument("--" ++ path, type=ty, default=… | required=True)` -/
 def addArgR (p : List String) (ty : Ty) (d stated : Option Val) : TableR :=
-  ⟨[⟨p, decide (ty = .listInt), ty, (match stated with | some v => v | none => d.getD .null)⟩], if d.isNone then [p] else [], []⟩
+  ⟨[⟨p, hasPlus ty, ty, (match stated with | some v => v | none => d.getD .null)⟩], if d.isNone then [p] else [], []⟩
 
 /-! ## `set_defaults` -/
 
@@ -103,7 +103,7 @@ mutual
 /-- `_add_signature_parameter`: a leaf parameter is an `add_argument`; a dataclass-typed parameter goes through the
     dispatch of `add_argument` to `add_class_arguments(type, nested_key, default=<its default instance>)` -/
 def sigF (pre : List String) : FieldR → TableR
-  | .leaf n ty d _ => addArgR (pre ++ [n]) ty d none
+  | .leaf n ty d _ => addArgR (pre ++ [n]) ty (normOptD ty d) none    -- (Optional without default: `default = None`)
   | .sub n dn fs =>
     -- `_create_group_if_requested`: the `_ActionConfigLoad` of the group; the parameters; then `set_defaults` of the default
     setDefs (pre ++ [n]) dn ((⟨[], [], [pre ++ [n]]⟩ : TableR).append (sigL (pre ++ [n]) fs))
@@ -128,7 +128,7 @@ def mapsFor (n : String) : DMap → DMap
 
 mutual
 def effF (D : DMap) : FieldR → FieldR
-  | .leaf n ty d _ => .leaf n ty d (valFor n D none)
+  | .leaf n ty d _ => .leaf n ty (normOptD ty d) (valFor n D none)
   | .sub n dn fs => .sub n [] (effL (dn ++ mapsFor n D) fs)
 def effL (D : DMap) : List FieldR → List FieldR
   | [] => []
@@ -153,7 +153,7 @@ def declR : Style → String → DMap → List FieldR → TableR
 
 mutual
 def specF (whole : Bool) : FieldR → String × Node
-  | .leaf n ty d _ => (n, .leaf ty d.isNone d)
+  | .leaf n ty d _ => (n, .leaf ty (normOptD ty d).isNone (normOptD ty d))
   | .sub n _ fs => (n, .group whole (specL whole fs))
 def specL (whole : Bool) : List FieldR → Fields
   | [] => []
